@@ -228,6 +228,7 @@ def verify_contract(contract, want_smt_sample=True, log=None, shard=()):
                 break
             ex = Ex(prefix)
             ctx = contract.make_ctx(case)
+            ctx.ghost["__fn_node__"] = rf.node
             interp = Interp(rp, ex, ctx)
             outcome = None
             try:
